@@ -330,6 +330,9 @@ func (e *Engine) noteWrite(objEpoch int, kind string, id int, name string) {
 	if e.frozen > 0 && objEpoch < e.frozen {
 		e.preWrites++
 		e.preWriteIDs = append(e.preWriteIDs, id)
+		if objEpoch == 0 {
+			e.globalWrites++
+		}
 		if len(e.preWriteLog) < 8 {
 			where := ""
 			if e.curInstr != nil {
